@@ -67,7 +67,7 @@ type outcome struct {
 type adapter struct {
 	name     string
 	modelled bool // Deviate.v has a round model (classification is compared)
-	run      func(seed int64, label string, hook drive.Hook) *outcome
+	run      func(seed int64, labels map[sharing.ID]string, hook drive.Hook) *outcome
 	// norm decodes the bytes of message (round, broadcast?) into the typed message the
 	// recipient would get and re-encodes it (nil if they do not decode): altered bytes whose norm
 	// equals the original bytes are the SAME message for the recipient (a semantic no-op, e.g. a
@@ -105,6 +105,31 @@ func labelsAll(l string) map[sharing.ID]string {
 		m[id] = l
 	}
 	return m
+}
+
+// labelsAlt: everybody uses the randomness of the main run ("a") except d ("c"): an alternative
+// execution of the SAME session in which only d's own choices differ.
+func labelsAlt(d sharing.ID) map[sharing.ID]string {
+	m := labelsAll("a")
+	m[d] = "c"
+	return m
+}
+
+// sessionLabel: the session (contexts) of a run: "b" for the parallel session, else "a" — so
+// that the main run and the alternative runs of each party share one session.
+func sessionLabel(labels map[sharing.ID]string) string {
+	for _, l := range labels {
+		if l != "b" {
+			return "a"
+		}
+	}
+	return "b"
+}
+
+// ctxsFor runs the real session setup (honestly) and returns fresh contexts.
+func ctxsFor(seed int64, labels map[sharing.ID]string, quorum []sharing.ID) map[sharing.ID]*rsess.Context {
+	res := dsess.RunFull(dsess.Config{Seed: seed, Prop: "C04/ctx", Quorum: quorum, Labels: labelsAll(sessionLabel(labels))})
+	return res.Ctx
 }
 
 func honestOf(ids []sharing.ID, dev sharing.ID) []sharing.ID {
@@ -153,7 +178,9 @@ func adapters(tier string) []*adapter {
 			}
 			return normAs[*rhjky.Round1P2P[kP, kS]](b)
 		}},
-		{name: "redistribute", modelled: true, run: runRedist, norm: func(r int, bc bool, b []byte) []byte {
+		{name: "redistribute", modelled: true, run: func(seed int64, label map[sharing.ID]string, hook drive.Hook) *outcome {
+			return runRedist(seed, label, hook, parties) // refresh: every holder is a previous and a next holder
+		}, norm: func(r int, bc bool, b []byte) []byte {
 			switch {
 			case r == 1 && bc:
 				return normAs[*rredist.Round1Broadcast[kP, kS]](b)
@@ -179,15 +206,15 @@ func adapters(tier string) []*adapter {
 			}
 			return nil
 		}},
-		{name: "boldyreva", modelled: true, run: func(seed int64, label string, hook drive.Hook) *outcome {
+		{name: "boldyreva", modelled: true, run: func(seed int64, label map[sharing.ID]string, hook drive.Hook) *outcome {
 			return runBls(seed, label, hook, []sharing.ID{1, 2}) // minimal quorum: an unusable partial signature cannot be made up for
 		}},
-		{name: "boldyreva-3", run: func(seed int64, label string, hook drive.Hook) *outcome {
+		{name: "boldyreva-3", run: func(seed int64, label map[sharing.ID]string, hook drive.Hook) *outcome {
 			return runBls(seed, label, hook, parties) // redundant quorum: the others may still reach the threshold
 		}},
-		{name: "dkls23", modelled: true, run: func(seed int64, label string, hook drive.Hook) *outcome {
+		{name: "dkls23", modelled: true, run: func(seed int64, label map[sharing.ID]string, hook drive.Hook) *outcome {
 			return runDkls(seed, label, hook, "bbot", dklsQuorum)
-		}, first: []string{"gammaU.compressedBytes", "psi.fieldBytes", "pk.compressedBytes", "bigR.compressedBytes", "mulR3.mu",
+		}, noParallel: tier != "thorough", first: []string{"gammaU.compressedBytes", "psi.fieldBytes", "pk.compressedBytes", "bigR.compressedBytes", "mulR3.mu",
 			"mulR2.OtR2.phi.compressedBytes", "u.fieldBytes", "gammaV.compressedBytes", "mulR1.OtR1.ms.compressedBytes"}, norm: func(r int, bc bool, b []byte) []byte {
 			switch {
 			case r == 1 && bc:
@@ -207,9 +234,14 @@ func adapters(tier string) []*adapter {
 			}
 			return nil
 		}},
+		// recovery of holder 3's share by {1,2} without a trusted anchor: 3 is a next-only holder whose
+		// only defence against a dealer that shifts the key is the final oldPk = newPk guard
+		{name: "redistribute-recover", run: func(seed int64, label map[sharing.ID]string, hook drive.Hook) *outcome {
+			return runRedist(seed, label, hook, []sharing.ID{1, 2})
+		}},
 		// protocols without a round model: property oracle (a)-(c) only
 		{name: "canetti", run: runCanetti},
-		{name: "dkls23-softspoken", run: func(seed int64, label string, hook drive.Hook) *outcome {
+		{name: "dkls23-softspoken", run: func(seed int64, label map[sharing.ID]string, hook drive.Hook) *outcome {
 			return runDkls(seed, label, hook, "softspoken", []sharing.ID{1, 2})
 		}, noParallel: true},
 		{name: "lindell17", run: runL17, noParallel: true},
@@ -219,8 +251,8 @@ func adapters(tier string) []*adapter {
 
 // ---- session ---------------------------------------------------------------------------
 
-func runSession(seed int64, label string, hook drive.Hook) *outcome {
-	res := dsess.RunFull(dsess.Config{Seed: seed, Prop: "C04", Quorum: parties, Labels: labelsAll(label), Hook: hook})
+func runSession(seed int64, label map[sharing.ID]string, hook drive.Hook) *outcome {
+	res := dsess.RunFull(dsess.Config{Seed: seed, Prop: "C04", Quorum: parties, Labels: label, Hook: hook})
 	o := &outcome{tr: res.Trace, ids: res.Quorum}
 	o.judge = func(dev sharing.ID) (bad []finding, returned []sharing.ID) {
 		hs := honestOf(res.Quorum, dev)
@@ -349,14 +381,14 @@ func judgeShards[E algebra.PrimeGroupElement[E, S], S algebra.PrimeFieldElement[
 
 // ---- gennaro ---------------------------------------------------------------------------
 
-func runGennaro(seed int64, label string, hook drive.Hook) *outcome {
+func runGennaro(seed int64, label map[sharing.ID]string, hook drive.Hook) *outcome {
 	pol, _ := keys.ParsePolicy(policy)
 	ac, err := pol.Build()
 	if err != nil {
 		return &outcome{setupErr: err.Error()}
 	}
 	g := k256.NewCurve()
-	res := dgen.RunFull(dgen.Config[*k256.Point, *k256.Scalar]{Seed: seed, Prop: "C04", Labels: labelsAll(label), Hook: hook, Group: g, AC: ac, Compiler: fiatshamir.Name})
+	res := dgen.RunFull(dgen.Config[*k256.Point, *k256.Scalar]{Seed: seed, Prop: "C04", Labels: label, Hook: hook, Group: g, AC: ac, Compiler: fiatshamir.Name, Ctxs: ctxsFor(seed, label, parties)})
 	o := &outcome{tr: res.Trace, ids: res.IDs}
 	o.judge = func(dev sharing.ID) ([]finding, []sharing.ID) {
 		return judgeShards[*k256.Point, *k256.Scalar](g, ac, res.Shards, res.IDs, dev, nil)
@@ -368,11 +400,15 @@ func runGennaro(seed int64, label string, hook drive.Hook) *outcome {
 
 var message = []byte("C04 deviation check message")
 
-func common(seed int64, label string, hook drive.Hook) keys.Common {
-	return keys.Common{Seed: seed, Prop: "C04", Labels: labelsAll(label), Hook: hook, Quorum: parties, Session: "real", Message: message}
+func common(seed int64, label map[sharing.ID]string, hook drive.Hook) keys.Common {
+	sess := "seeded" // one session for the main run and the alternative runs
+	if sessionLabel(label) == "b" {
+		sess = "real" // the parallel session: same keys, another session
+	}
+	return keys.Common{Seed: seed, Prop: "C04", Labels: label, Hook: hook, Quorum: parties, Session: sess, Message: message}
 }
 
-func runDkls(seed int64, label string, hook drive.Hook, mult string, quorum []sharing.ID) *outcome {
+func runDkls(seed int64, label map[sharing.ID]string, hook drive.Hook, mult string, quorum []sharing.ID) *outcome {
 	c := common(seed, label, hook)
 	c.Quorum = quorum
 	res := ddkls.RunFull(ddkls.Config{Common: c, Policy: policy, Curve: "k256", Hash: "sha256", Multiplier: mult})
@@ -396,7 +432,7 @@ func runDkls(seed int64, label string, hook drive.Hook, mult string, quorum []sh
 
 // ---- lindell22 (BIP-340) ---------------------------------------------------------------
 
-func runL22(seed int64, label string, hook drive.Hook) *outcome {
+func runL22(seed int64, label map[sharing.ID]string, hook drive.Hook) *outcome {
 	res := dl22.RunFull(dl22.Config{Common: common(seed, label, hook), Policy: policy, Variant: "bip340"})
 	o := &outcome{tr: res.Trace, ids: res.Quorum, agg: true, setupErr: res.SetupErr}
 	o.judge = func(dev sharing.ID) (bad []finding, returned []sharing.ID) {
@@ -424,14 +460,14 @@ func runL22(seed int64, label string, hook drive.Hook) *outcome {
 
 // ---- hjky (zero sharing) ---------------------------------------------------------------
 
-func runHjky(seed int64, label string, hook drive.Hook) *outcome {
+func runHjky(seed int64, label map[sharing.ID]string, hook drive.Hook) *outcome {
 	pol, _ := keys.ParsePolicy(policy)
 	ac, err := pol.Build()
 	if err != nil {
 		return &outcome{setupErr: err.Error()}
 	}
 	g := k256.NewCurve()
-	res := dhjky.RunFull(dhjky.Config[kP, kS]{Seed: seed, Prop: "C04", Labels: labelsAll(label), Hook: hook, Group: g, Access: ac})
+	res := dhjky.RunFull(dhjky.Config[kP, kS]{Seed: seed, Prop: "C04", Labels: label, Hook: hook, Group: g, Access: ac, Contexts: ctxsFor(seed, label, parties)})
 	o := &outcome{tr: res.Trace, ids: res.IDs}
 	o.judge = func(dev sharing.ID) (bad []finding, returned []sharing.ID) {
 		for _, id := range honestOf(res.IDs, dev) {
@@ -490,15 +526,15 @@ func runHjky(seed int64, label string, hook drive.Hook) *outcome {
 
 // ---- redistribute (refresh by all three holders) ---------------------------------------
 
-func runRedist(seed int64, label string, hook drive.Hook) *outcome {
+func runRedist(seed int64, label map[sharing.ID]string, hook drive.Hook, prev []sharing.ID) *outcome {
 	pol, _ := keys.ParsePolicy(policy)
 	g := k256.NewCurve()
 	dealt, err := keys.Deal[kP, kS](g, pol, vh.NewRng(seed, "C04", "deal", 0))
 	if err != nil {
 		return &outcome{setupErr: err.Error()}
 	}
-	res := dredist.RunFull(dredist.Config[kP, kS]{Seed: seed, Prop: "C04", Labels: labelsAll(label), Hook: hook, Group: g,
-		PrevShards: dealt.Shards, PrevQuorum: parties, Next: dealt.AC})
+	res := dredist.RunFull(dredist.Config[kP, kS]{Seed: seed, Prop: "C04", Labels: label, Hook: hook, Group: g,
+		PrevShards: dealt.Shards, PrevQuorum: prev, Next: dealt.AC, Contexts: ctxsFor(seed, label, parties)})
 	o := &outcome{tr: res.Trace, ids: res.IDs}
 	pk := dealt.PK
 	o.judge = func(dev sharing.ID) ([]finding, []sharing.ID) {
@@ -509,14 +545,14 @@ func runRedist(seed int64, label string, hook drive.Hook) *outcome {
 
 // ---- canetti DKG (no round model) ------------------------------------------------------
 
-func runCanetti(seed int64, label string, hook drive.Hook) *outcome {
+func runCanetti(seed int64, label map[sharing.ID]string, hook drive.Hook) *outcome {
 	pol, _ := keys.ParsePolicy(policy)
 	ac, err := pol.Build()
 	if err != nil {
 		return &outcome{setupErr: err.Error()}
 	}
 	g := k256.NewCurve()
-	res := dcan.RunFull(dcan.Config[kP, kS]{Seed: seed, Prop: "C04", Labels: labelsAll(label), Hook: hook, Group: g, AC: ac})
+	res := dcan.RunFull(dcan.Config[kP, kS]{Seed: seed, Prop: "C04", Labels: label, Hook: hook, Group: g, AC: ac, Ctxs: ctxsFor(seed, label, parties)})
 	o := &outcome{tr: res.Trace, ids: res.IDs}
 	o.judge = func(dev sharing.ID) ([]finding, []sharing.ID) {
 		return judgeShards[kP, kS](g, ac, res.Shards, res.IDs, dev, nil)
@@ -526,7 +562,7 @@ func runCanetti(seed int64, label string, hook drive.Hook) *outcome {
 
 // ---- boldyreva (threshold BLS, one round + aggregator) ---------------------------------
 
-func runBls(seed int64, label string, hook drive.Hook, quorum []sharing.ID) *outcome {
+func runBls(seed int64, label map[sharing.ID]string, hook drive.Hook, quorum []sharing.ID) *outcome {
 	c := common(seed, label, hook)
 	c.Quorum = quorum
 	res := dbls.RunFull(dbls.Config{Common: c, Policy: policy, KeySize: "short", Mode: "basic"})
@@ -553,7 +589,7 @@ func runBls(seed int64, label string, hook drive.Hook, quorum []sharing.ID) *out
 
 // ---- lindell17 (two-party ECDSA; stored Paillier keys; no round model) ------------------
 
-func runL17(seed int64, label string, hook drive.Hook) *outcome {
+func runL17(seed int64, label map[sharing.ID]string, hook drive.Hook) *outcome {
 	c := common(seed, label, hook)
 	c.Quorum = []sharing.ID{1, 2}
 	res := dl17.RunFull(dl17.Config{Common: c, Policy: policy, Curve: "k256", Hash: "sha256", Compiler: "fischlin"})
@@ -577,10 +613,9 @@ func runL17(seed int64, label string, hook drive.Hook) *outcome {
 
 // ---- cggmp21 (stored keys; no round model) ---------------------------------------------
 
-func runCggmp(seed int64, label string, hook drive.Hook) *outcome {
+func runCggmp(seed int64, label map[sharing.ID]string, hook drive.Hook) *outcome {
 	c := common(seed, label, hook)
 	c.Quorum = []sharing.ID{1, 2}
-	c.Session = "seeded"
 	res := dcg.RunFull(dcg.Config{Common: c, Policy: policy, Curve: "k256", Hash: "sha256"})
 	o := &outcome{tr: res.Trace, ids: res.Quorum, agg: true, setupErr: res.SetupErr}
 	o.judge = func(dev sharing.ID) (bad []finding, returned []sharing.ID) {
